@@ -213,6 +213,14 @@ func buildTree(ss []ast.Stmt, rest [][]ast.Stmt, seen map[string]int) *tnode {
 		return &tnode{kind: "ev", a: "loop", b: "switch/select", k: cont(seen)}
 	case *ast.GoStmt:
 		return &tnode{kind: "ev", a: "go", b: fullExpr(x.Call.Fun), k: cont(seen)}
+	case *ast.ExprStmt:
+		// panic(...) ends the function: the process dies there
+		if c, ok := x.X.(*ast.CallExpr); ok {
+			if id, ok := c.Fun.(*ast.Ident); ok && id.Name == "panic" {
+				return evChain(callEvents(s), &tnode{kind: "ret", a: "panic"})
+			}
+		}
+		return evChain(callEvents(s), cont(seen))
 	default:
 		return evChain(callEvents(s), cont(seen))
 	}
